@@ -1343,11 +1343,11 @@ fn main() {
         "api_diff",
         "program on ShardedActorState<VerifTime>: 1 shard vs N shards, step-wise replies + final dump + one home per key",
     );
-    s.run_cases("api_diff", s.scale(20_000, 400_000), || api_case(thorough), check_api);
+    s.run_cases("api_diff", s.scale(80_000, 1_000_000), || api_case(thorough), check_api);
     s.describe_check(
         "conn_diff",
         "same byte stream and segmentation through two connection handlers (1 shard vs N shards): reply streams + final dump",
     );
-    s.run_cases("conn_diff", s.scale(10_000, 300_000), conn_case, check_conn);
+    s.run_cases("conn_diff", s.scale(40_000, 1_000_000), conn_case, check_conn);
     s.finish();
 }
